@@ -27,12 +27,14 @@ def run(ctx):
         cstr(ctx, prog)
         checked_utf8(ctx, prog, cfg)
         concat(ctx, prog)
+        first_elem(ctx, prog)
     expansions(ctx)
     from .. import macrolint, facts
     macrolint.hygiene_rule(ctx, ["string_concat", "string_join", "slice_concat", "str_from_iter"], facts.REPO)
     ctx.floor("CSTR", 7)
     ctx.floor("CONCAT", 14)
     ctx.floor("EXPAND", 3)
+    ctx.floor("FIRST-ELEM", 2)
 
 
 def _viol(ctx, rule, key, msg, b):
@@ -477,6 +479,74 @@ def concat(ctx, prog):
         if not ok or seen != {"ok", "panic"}:
             _viol(ctx, "CONCAT", cfg + "|ArrayStr::as_str", "ArrayStr::as_str must re-validate with the checked from_utf8 and panic on Err", b)
         ctx.instance("CONCAT", cfg + "|ArrayStr::as_str")
+
+
+def first_elem(ctx, prog):
+    """concat_slices fills its output with `*first_elem(slices)` before copying: first_elem may give up (panic) only when every piece
+    is empty - which, with N = the sum of the lengths, is the N == 0 case concat_slices returns from before calling it.  Walk template
+    over the list of pieces, with the cursor either an index (from 0, +1) or a running remainder (from the whole list, minus its first
+    piece): panic <=> the cursor is exhausted; go on <=> the current piece is empty; otherwise return an element of the current piece."""
+    cfg = prog.config
+    b = ctx.anchor(prog, SL + "first_elem")
+    if b is None:
+        return
+    key = cfg + "|first_elem"
+    try:
+        paths = sym.through_loops(b, prog, keep_back=True)
+    except sym.TooManyPaths:
+        paths = []
+    back = [p for p in paths if p.kind == "back"]
+    c = loops.counted(paths, ("len", P1))
+    cursor = None
+    if c is not None and c["bound"] == ("len", P1) and not c["problems"]:
+        I = c["I"]
+        cursor = "index"
+        piece = ("index", ("deref", P1), I)
+        live, done = [lt(I, ("len", P1))], [le(("len", P1), I)]
+        adv = lambda p: p.env.get(c["counter"]) == ("bin", "Add", I, Int(1))
+    else:
+        rl = {l for p in back for l, v in p.env.items() if v == ("ref", ("subslice", ("deref", ("L", l)), 1, 0, True))}
+        inits = {dict(e[2]).get(l) for p in paths for e in p.events if e[0] == "loop" for l in rl}
+        if len(rl) == 1 and inits == {P1}:
+            l = rl.pop()
+            R = ("L", l)
+            cursor = "remainder"
+            piece = ("cidx", ("deref", R), 0, False)
+            live, done = [le(Int(1), ("len", R))], [lt(("len", R), Int(1))]
+            adv = lambda p: p.env.get(l) == ("ref", ("subslice", ("deref", R), 1, 0, True))
+    if cursor is None:
+        _viol(ctx, "FIRST-ELEM", key, "first_elem is not a walk over the pieces (an index from 0 in steps of one up to slices.len(), or a remainder "
+              "that loses its first piece per step): a piece could be skipped, and concat_slices would panic on a non-empty list", b)
+        ctx.instance("FIRST-ELEM", key)
+        return
+
+    def goes_on(p, case):
+        return None if adv(p) else "the cursor must advance by exactly one piece"
+
+    def elem(p, case):
+        v = table.strip_gargs(p.value)
+        ok = v[0] == "ref" and v[1][0] in ("cidx", "index") and v[1][1] == ("deref", piece)
+        return None if ok else "expected a reference to an element of the current (non-empty) piece, got %s" % show(v)
+
+    def gives_up(p, case):
+        return None
+    rows = [Row(done, gives_up, kind="panic", name="no piece left"),
+            Row(live + [eq(("len", piece), Int(0))], goes_on, kind="back", name="empty piece: continue"),
+            Row(live + [le(Int(1), ("len", piece))], elem, name="non-empty piece")]
+    _cmp(ctx, "FIRST-ELEM", key, b, paths, rows)
+    # and concat_slices asks for it only after the N == 0 return
+    cb = ctx.anchor(prog, SL + "concat_slices")
+    if cb is not None:
+        msg = None
+        sites = [(bb, t) for bb, t in cb.calls() if ((t.get("callee") or {}).get("path") or "").endswith("::first_elem")]
+        empt = [(bb, t) for bb, t in cb.calls() if ((t.get("callee") or {}).get("path") or "").endswith("::try_into_array_func")]
+        if len(sites) != 1 or len(empt) != 1:
+            msg = "expected one first_elem call and one empty-array test (found %d, %d)" % (len(sites), len(empt))
+        elif not cb.dominates(empt[0][0], sites[0][0]):
+            msg = "first_elem(slices) is called before the `N == 0` (empty output) return"
+        if msg:
+            _viol(ctx, "FIRST-ELEM", cfg + "|concat_slices", "concat_slices: " + msg, cb)
+        ctx.instance("FIRST-ELEM", cfg + "|concat_slices")
 
 
 def _reads_indexed(b, src, depth=0):
